@@ -26,6 +26,7 @@ RULE += (' Also: tuple / list subclass instances as inputs; exact result types c
 RULE += (' Also: awaitable and look-alike values as default / fill value / initial value (handed back or passed on as they are).')
 RULE += (" Also: after the call the caller's synchronous one-shot iterator still yields everything the aggregation did not take.")
 RULE += (' Also: defaults equal to everything / refusing comparison.')
+RULE += (' Also: key functions giving equal / identical keys that cannot be ordered.')
 ASSUMPTIONS = ["builtins/functools/heapq of the running interpreter (3.12) are the reference, incl. compensated float sum"]
 EXHAUSTIVE = {"quick": False, "thorough": False}
 N_RANDOM = {"quick": 150000, "thorough": 8000000}
